@@ -40,6 +40,10 @@ OPTS = [("breaks", True), ("breaks", False), ("xhtmlOut", False), ("xhtmlOut", T
 
 
 def floors(tier):
+    return dict(_floors0(tier), **{'env_observer.renders': 150, 'env_observer.env_nonempty': 60})
+
+
+def _floors0(tier):
     q = tier == "quick"
     return {"histories": 3000 if q else 80000, "steps": 60000, "step.new": 5000, "step.parse_noenv_defs": 3000, "step.shared_env": 2000, "step.use": 500,
             "step.rrule": 500, "step.mutate_result": 1000, "step.set": 500, "step.badcall": 1000, "probe.used_vs_twin": 100000, "probe.pristine_panel": 3000,
@@ -377,12 +381,63 @@ def check_case(ctx, case):
 
 
 def replay(ctx, case):
-    check_case(ctx, case)
+    if case.get("kind") == "envobs":
+        env_case(ctx, case)
+    else:
+        check_case(ctx, case)
+
+
+def env_observer(preset, opts):
+    """instance with a plug-in that hands data from the parse to the renderer through env (core rule writes, render rules read)"""
+    from markdown_it import MarkdownIt
+    md = MarkdownIt(preset, dict(opts))
+
+    def count_links(state):
+        state.env["vf_links"] = sum(1 for t in state.tokens if t.type == "inline" for c in (t.children or []) if c.type == "link_open")
+    md.core.ruler.push("vf_count_links", count_links)
+
+    def para(self, tokens, idx, options, env):
+        return self.renderToken(tokens, idx, options, env) + f"<!--refs={sorted(env.get('references', {}))} links={env.get('vf_links')}-->"
+
+    def text(self, tokens, idx, options, env):
+        return f"{tokens[idx].content}" .replace("<", "&lt;") + (f"{{{env.get('vf_links')}}}" if "vf_links" in env else "{no-env}")
+    md.add_render_rule("paragraph_open", para)
+    md.add_render_rule("text", text)
+    return md
+
+
+def env_case(ctx, case):
+    """the env handed to the render rules is the one the parse filled, whether the caller passed one or not"""
+    ctx.count("evaluations")
+    ctx.current = case
+    preset, opts = PANEL[case["panel"]]
+    src = case["src"]
+    md = env_observer(preset, opts)
+    try:
+        a, b = md.render(src), md.render(src, {})
+        ia, ib = md.renderInline(src), md.renderInline(src, {})
+    except Exception:
+        ctx.count("skipped.exception")
+        return
+    ctx.count("env_observer.renders")
+    if "refs=[]" not in a or "links=0" not in a:
+        ctx.count("env_observer.env_nonempty")
+        ctx.nontrivial("envobs", case["panel"], src)
+    if a != b:
+        ctx.violation("env-none-vs-empty:render", f"render(src) {a[:300]!r} != render(src, {{}}) {b[:300]!r} with render rules that read env | src={src!r} panel={PANEL[case['panel']]}", dict(case, kind="envobs"))
+    elif ia != ib:
+        ctx.violation("env-none-vs-empty:renderInline", f"renderInline(src) {ia[:300]!r} != renderInline(src, {{}}) {ib[:300]!r} with render rules that read env | src={src!r} panel={PANEL[case['panel']]}", dict(case, kind="envobs"))
 
 
 def run(ctx):
     rng = ctx.rng
     init_pristine()
+    k = 0
+    for pi in range(len(PANEL)):
+        for src in PROBES + ["[a](u) [b][r] <http://c.d>\n\n[r]: /x\n", "[a](u) *b* [c](v)", "plain", "[r]\n\n[r]: /u 't'\n\n> [q]\n>\n> [q]: /v\n"]:
+            k += 1
+            if ctx.mine(k):
+                env_case(ctx, {"panel": pi, "src": src})
     fp0, fpfull0 = fingerprint(), fingerprint(True)
     n = ctx.scale(12000, 400000)
     window = []
